@@ -960,6 +960,43 @@ def register(fn):
     return fn
 
 
+def extract_session_order(out: Out, srcs):
+    """statement-order facts of the session layer that the hand-written model follows and that no translated function covers"""
+    c = srcs.get("client.py")
+    if c is None:
+        return
+    F = "SessionOrder"
+
+    def do_on_publish_order():
+        f = c.func("Client._do_on_publish")
+        pos = {}
+        for n in walk(f, ast.Call):
+            if isinstance(n.func, ast.Name) and n.func.id == "on_publish":
+                pos.setdefault("callback", []).append(n.lineno)
+            if isinstance(n.func, ast.Attribute) and n.func.attr == "pop" and unparse(n.func.value) == "self._out_messages":
+                pos.setdefault("pop", []).append(n.lineno)
+            if isinstance(n.func, ast.Attribute) and n.func.attr == "_set_as_published":
+                pos.setdefault("published", []).append(n.lineno)
+            if isinstance(n.func, ast.Attribute) and n.func.attr == "_update_inflight" and unparse(n.func.value) == "self":
+                pos.setdefault("refill", []).append(n.lineno)
+        for n in walk(f, ast.AugAssign):
+            if unparse(n.target) == "self._inflight_messages" and isinstance(n.op, ast.Sub):
+                pos.setdefault("slot", []).append(n.lineno)
+        for k in ("callback", "pop", "published", "slot", "refill"):
+            if k not in pos:
+                raise Missing(f"_do_on_publish: no {k} statement")
+        if not (max(pos["callback"]) < min(pos["pop"]) <= max(pos["pop"]) < min(pos["published"]) <= max(pos["published"])
+                < min(pos["slot"]) <= max(pos["slot"]) < min(pos["refill"])) or len(pos["pop"]) != 1 or len(pos["slot"]) != 1:
+            raise Missing(f"_do_on_publish: order of callback / pop / published / slot / refill is {pos}")
+        return True
+    out.anchor(F, "doOnPublishOrderOk", "Bool", do_on_publish_order,
+               "client.py Client._do_on_publish: the user's on_publish runs BEFORE the message is removed, its info marked published and its "
+               "window slot freed (in that order); _update_inflight() refills the window after that")
+
+
+EXTRACTORS.append(extract_session_order)
+
+
 def run(write=True):
     out = Out()
     srcs = {}
